@@ -62,9 +62,21 @@ func runC01(c *Ctx) {
 	c03PureAs(c, "C01.inplace")
 }
 
-// exprField returns the fields of an expression type by role.
+// exprMethod: the method of an (exported) expression type that implements the given method of the Expression interface;
+// the interface's methods are unexported, so callers pass the resolved name (c.a.EvalName / c.a.KeyName, rules_ag10.go).
 func exprMethod(c *Ctx, typeName, method string) *ssa.Function {
+	if method == "" {
+		return nil
+	}
 	return c.w.method(pkgRoot, typeName, method)
+}
+
+// nameOr: the resolved name of an unexported role for obligation keys and messages; today's name when it did not resolve.
+func nameOr(resolved, role string) string {
+	if resolved != "" {
+		return resolved
+	}
+	return role
 }
 
 func keyflowRule(c *Ctx, rule string) {
@@ -149,15 +161,15 @@ func keyflowRule(c *Ctx, rule string) {
 	})
 	c.r.check(okAdd && okRet, rule, safeFname(sa), "returns getValueIndex(column, value) (or the index stored for that value)", "schema.add does not yield getValueIndex(column, value) of its own arguments: writers would store a pair's bitmap under a key queries do not look up", c.w.pos(sa.Pos()))
 	// equality test: GetCol(getValueIndex(e.Column, e.Value))
-	ev := exprMethod(c, "ExprEqual", "eval")
+	ev := exprMethod(c, "ExprEqual", c.a.EvalName)
 	if ev == nil {
-		c.r.undecided(rule, "(*ExprEqual).eval", "method not found")
+		c.r.undecided(rule, "(*ExprEqual)."+nameOr(c.a.EvalName, "eval"), "method not found")
 		return
 	}
 	okLookup, n := true, 0
 	allInstrs(ev, func(i ssa.Instruction) {
 		call, ok := i.(*ssa.Call)
-		if !ok || !call.Call.IsInvoke() || call.Call.Method.Name() != "GetCol" {
+		if !ok || !call.Call.IsInvoke() || call.Call.Method.Name() != getColName {
 			return
 		}
 		n++
@@ -202,12 +214,13 @@ func keyflowRule(c *Ctx, rule string) {
 }
 
 func universeRule(c *Ctx, rule string) {
-	en := exprMethod(c, "ExprNot", "eval")
+	en := exprMethod(c, "ExprNot", c.a.EvalName)
 	if en == nil {
-		c.r.undecided(rule, "(*ExprNot).eval", "method not found")
+		c.r.undecided(rule, "(*ExprNot)."+nameOr(c.a.EvalName, "eval"), "method not found")
 		return
 	}
-	rows := structFieldNamed(c.a.IndexT, "nextRowID")
+	// (the Index's row-count field: by shape, rules_ag10.go)
+	rows := c.a.IdxRowsF
 	if rows == nil {
 		c.r.undecided(rule, "<anchor>", "Index row-count field not found")
 		return
@@ -248,7 +261,7 @@ func universeRule(c *Ctx, rule string) {
 		opnd := args[len(args)-3]
 		if e, ok := opnd.(*ssa.Extract); !ok || e.Index != 0 {
 			why = "what is flipped is not the operand's evaluation result"
-		} else if ec, ok := e.Tuple.(*ssa.Call); !ok || !ec.Call.IsInvoke() || ec.Call.Method.Name() != "eval" {
+		} else if ec, ok := e.Tuple.(*ssa.Call); !ok || !ec.Call.IsInvoke() || ec.Call.Method.Name() != evalName {
 			why = "what is flipped is not the operand's evaluation result"
 		}
 		c.r.check(why == "", rule, safeFname(en)+": complement", "Flip(operand, 0, rowCount)", "NOT does not complement exactly within the rows of the index: "+why, c.w.ipos(call))
@@ -504,7 +517,7 @@ func nilBitmapRule(c *Ctx, rule string) {
 	for _, fn := range re.sorted() {
 		allInstrs(fn, func(i ssa.Instruction) {
 			call, ok := i.(*ssa.Call)
-			if !ok || !call.Call.IsInvoke() || call.Call.Method.Name() != "GetCol" {
+			if !ok || !call.Call.IsInvoke() || call.Call.Method.Name() != getColName {
 				return
 			}
 			// keys taken from the schema exist in the data; keys computed from the query (getValueIndex) may not
@@ -580,9 +593,9 @@ func opmapRule(c *Ctx, rule string) {
 		allow map[string]bool
 		what  string
 	}{{"ExprAnd", inter, "intersection"}, {"ExprOr", union, "union"}} {
-		fn := exprMethod(c, spec.typ, "eval")
+		fn := exprMethod(c, spec.typ, c.a.EvalName)
 		if fn == nil {
-			c.r.undecided(rule, "(*"+spec.typ+").eval", "method not found")
+			c.r.undecided(rule, "(*"+spec.typ+")."+nameOr(c.a.EvalName, "eval"), "method not found")
 			continue
 		}
 		name := safeFname(fn)
@@ -739,10 +752,10 @@ func runC02(c *Ctx) {
 
 // groupRefinements: calls to roaring.And (or the like) in the group-by code whose result is stored into a group.
 func nonzeroRule(c *Ctx, rule string) {
-	rgT := c.w.namedType(pkgRoot, "resultGroup")
-	resF := structFieldNamed(rgT, "result")
+	// (the partial group's bitmap field: by shape — the struct with a bitmap and a []ResultField, rules_ag10.go)
+	resF := c.a.ResGroupBMF
 	if resF == nil {
-		c.r.undecided(rule, "<anchor>", "resultGroup.result not found")
+		c.r.undecided(rule, "<anchor>", "the bitmap field of the group-by working type (resultGroup.result) was not found"+c.a.SH.whyText())
 		return
 	}
 	n := 0
@@ -803,6 +816,10 @@ func nonzeroRule(c *Ctx, rule string) {
 func fieldsRule(c *Ctx, rule string) {
 	rfT := c.w.namedType(pkgRoot, "ResultField")
 	colF, valF := structFieldNamed(rfT, "Column"), structFieldNamed(rfT, "Value")
+	// (the group-by level and value types and their fields: by shape, rules_ag10.go)
+	if !c.need(rule, c.a.LevelColF, c.a.LevelValsF, c.a.ValIdxF, c.a.ValValueF) {
+		return
+	}
 	n := 0
 	for _, fn := range c.w.reach(c.a.Execute).sorted() {
 		if c.w.pkgPathOf(fn) != pkgRoot {
@@ -833,22 +850,22 @@ func fieldsRule(c *Ctx, rule string) {
 		key := safeFname(fn)
 		okF := true
 		why := ""
-		if f := srcField(colSrc); f == nil || f.Name() != "Column" || c.w.ownerOf(f) == nil || c.w.ownerOf(f).Obj().Name() != "groupBy" {
+		if f := srcField(colSrc); f == nil || f != c.a.LevelColF {
 			okF, why = false, "the field's column is not the group-by level's column"
 		}
 		// the value must come from the same groupByValue whose Idx was used for GetCol in this iteration
 		fv := srcField(valSrc)
-		if fv == nil || fv.Name() != "Value" || c.w.ownerOf(fv) == nil || c.w.ownerOf(fv).Obj().Name() != "groupByValue" {
+		if fv == nil || fv != c.a.ValValueF {
 			okF, why = false, "the field's value is not the group-by value being refined"
 		} else {
 			vroot := path(valSrc).Root
 			same := false
 			allInstrs(fn, func(i ssa.Instruction) {
 				call, ok := i.(*ssa.Call)
-				if !ok || !call.Call.IsInvoke() || call.Call.Method.Name() != "GetCol" {
+				if !ok || !call.Call.IsInvoke() || call.Call.Method.Name() != getColName {
 					return
 				}
-				if fi := srcField(call.Call.Args[0]); fi != nil && fi.Name() == "Idx" && path(call.Call.Args[0]).Root == vroot {
+				if fi := srcField(call.Call.Args[0]); fi != nil && fi == c.a.ValIdxF && path(call.Call.Args[0]).Root == vroot {
 					same = true
 				}
 			})
@@ -857,7 +874,7 @@ func fieldsRule(c *Ctx, rule string) {
 			}
 			// the column must belong to the level whose values are being iterated: v is an element of <level>.Values
 			if okF {
-				level := levelOfValue(vroot)
+				level := levelOfValue(vroot, c.a.LevelValsF)
 				if level == nil || path(colSrc).Root != level {
 					okF, why = false, "the field's column is taken from a different group-by level than the value"
 				}
@@ -870,8 +887,8 @@ func fieldsRule(c *Ctx, rule string) {
 	}
 }
 
-// levelOfValue: vroot is the local copy of an element of <level>.Values; returns the root object of <level>.
-func levelOfValue(vroot ssa.Value) ssa.Value {
+// levelOfValue: vroot is the local copy of an element of <level>.Values (valsF); returns the root object of <level>.
+func levelOfValue(vroot ssa.Value, valsF *types.Var) ssa.Value {
 	al, ok := vroot.(*ssa.Alloc)
 	if !ok {
 		return nil
@@ -889,7 +906,7 @@ func levelOfValue(vroot ssa.Value) ssa.Value {
 		return nil
 	}
 	p := path(ia.X)
-	if f := p.lastField(); f == nil || f.Name() != "Values" {
+	if f := p.lastField(); f == nil || f != valsF {
 		return nil
 	}
 	return p.Root
@@ -904,7 +921,7 @@ func operandLoop(c *Ctx, fn *ssa.Function, v ssa.Value, isSrc func(ssa.Value) bo
 
 // evalCallElem recognises `x.eval(idx)` on an Expression and returns x.
 func evalCallElem(ec *ssa.Call) (ssa.Value, bool) {
-	if !ec.Call.IsInvoke() || ec.Call.Method.Name() != "eval" {
+	if !ec.Call.IsInvoke() || ec.Call.Method.Name() != evalName {
 		return nil, false
 	}
 	return ec.Call.Value, true
